@@ -81,6 +81,40 @@ def tightenOps (k : Nat) (s : String) : String := Id.run do
       | _ => out := replaceAllStr out (") " ++ op ++ " " ++ follow) (")," ++ op ++ " " ++ follow)  -- `),[XOR] I(`
   pure out
 
+/-- Filler that contains the property marker (`items,p`) in front of an operand of a combination of nested
+    statements, and an ordinary word at the same place: open finding
+    `C18-text-before-nested-operand-read-as-header` (the operand's type and suffix are read from everything in
+    front of its brace). Controls: the same filler in front of a plain nested statement or between components
+    must parse like the statement without filler. -/
+def markerFillerCases : Array Case := Id.run do
+  let mut out : Array Case := #[]
+  let mut k := 0
+  for sym in [Sym.Bdir, Sym.Bind, Sym.Cac, Sym.Cex, Sym.P] do
+    let inner1 := Stmt.mk [.ann { sym := Sym.A } true (.leaf (str "first actor")), .ann { sym := Sym.I } true (.leaf (str "first aim"))]
+    let inner2 := Stmt.mk [.ann { sym := Sym.A } true (.leaf (str "second actor")), .ann { sym := Sym.I } true (.leaf (str "second aim"))]
+    let comb := Stmt.mk [.ann { sym := Sym.A } true (.leaf (str "officer")), .ann { sym := Sym.I } true (.leaf (str "inspects")),
+                         .ncomb { sym := sym } (.op .OR (.one { sym := sym } inner1) (.one { sym := sym } inner2))]
+    let plain := Stmt.mk [.ann { sym := Sym.A } true (.leaf (str "officer")), .ann { sym := Sym.I } true (.leaf (str "inspects")),
+                          .nested { sym := sym } inner1]
+    let expC := Json.str (showNode (denoteTop comb))
+    let expP := Json.str (showNode (denoteTop plain))
+    let tC := String.ofList (renderS comb)
+    let tP := String.ofList (renderS plain)
+    let ins := fun (t filler : String) => match t.splitOn "[OR] " with
+      | [a, b] => a ++ "[OR] " ++ filler ++ " " ++ b
+      | _ => t
+    let mk := fun (id text kf tag : String) (exp : Json) =>
+      ({ id := id, op := "parse", args := Json.mkObj [("text", (text : Json))], exp := exp, tag := tag,
+         note := Json.mkObj [("kf", (kf : Json))] } : Case)
+    out := out.push (mk s!"c18-mf{k}a" (ins tC "items,p") "C18-text-before-nested-operand-read-as-header" "marker-filler-before-operand" expC)
+    out := out.push (mk s!"c18-mf{k}b" (ins tC "items") "C18-text-before-nested-operand-read-as-header" "marker-filler-before-operand" expC)
+    out := out.push (mk s!"c18-mf{k}c" (ins tC "see 3,p") "C18-text-before-nested-operand-read-as-header" "marker-filler-before-operand" expC)
+    -- the same filler in front of a plain nested statement, and between the components
+    out := out.push (mk s!"c18-mf{k}d" (tP.replace "(inspects) " "(inspects) items,p ") "" "marker-filler-control" expP)
+    out := out.push (mk s!"c18-mf{k}e" (tC.replace "(officer) " "(officer) items,p ") "" "marker-filler-control" expC)
+    k := k + 1
+  pure out
+
 def genC18Cases (tier : String) (seed : Nat) : Array Case := Id.run do
   let nbase := if tier = "thorough" then 500 else 50
   let nvar := if tier = "thorough" then 12 else 6
@@ -123,6 +157,6 @@ def genC18Cases (tier : String) (seed : Nat) : Array Case := Id.run do
     let c3 : Case := { id := s!"c18-{b}-odd", op := "parse", args := Json.mkObj [("text", (t3 : Json))], exp := exp, tag := "unusual-punctuation",
                        note := Json.mkObj [("kf", ((if hasOdd && hasBrace then "C18-characters-outside-accepted-class-inside-braces" else "") : Json))] }
     out := out.push c3
-  pure out
+  pure (out ++ markerFillerCases)
 
 end Drv
